@@ -78,3 +78,8 @@ package mapset
 //@   ensures forall x T :: has(s.m, x) == (exists j int :: 0 <= j && j < len(items) && items[j] == x)
 //@   loop 1
 //@     invariant h != nil && !isnil(h.m) && (forall x T :: has(h.m, x) == (exists j int :: 0 <= j && j < $i && items[j] == x))
+
+// Decoding assigns a new set to the variable the receiver points to; it never
+// writes into the map the old value holds (copies of the old value - an
+// entity's Parents handed out earlier - share that map).
+//@ frameshallow C11 (*MapSet)UnmarshalJSON (*ImmutableMapSet)UnmarshalJSON
